@@ -96,6 +96,13 @@ def run(tier, seed, replay):
         # 2. seeded random programs of the full core grammar
         for _ in range(700 if quick else 12000):
             cases.append({"src": jqgen.program(r, r.choice([2, 3, 3, 4])), "inputs": r.sample(uni, 2 if quick else 3)})
+        # 2b. lexical scoping (definitions / variables / labels made inside one sub-query are invisible in its siblings) and join points
+        for _ in range(400 if quick else 8000):
+            cases.append({"src": jqgen.scope_program(r), "inputs": r.sample(uni, 1 if quick else 2)})
+        for _ in range(150 if quick else 3000):
+            cases.append({"src": jqgen.join_program(r), "inputs": r.sample(uni, 1 if quick else 2)})
+        # 2c. the witnesses of repaired findings
+        cases += [{"src": c["src"], "inputs": c["inputs"]} for c in evalfam.regression_cases()]
         # 3. corpus
         cor = evalfam.corpus_cases(work, vh)
         rep.cov["corpus_queries"] = len(cor)
